@@ -509,10 +509,10 @@ impl WritersHandle {
         let max_level = new_spec.max_level();
         #[cfg(flexi_logger_verif)]
         crate::verif_hooks::sched_point("spec_enter");
-        self.spec
-            .write()
-            .map_err(|_| FlexiLoggerError::Poison)?
-            .update_from(new_spec);
+        // the write lock is held until also the global max level is set: with concurrent changes,
+        // specification and max level must belong to the same call
+        let mut spec_guard = self.spec.write().map_err(|_| FlexiLoggerError::Poison)?;
+        spec_guard.update_from(new_spec);
         #[cfg(flexi_logger_verif)]
         crate::verif_hooks::sched_point("spec_updated");
         self.reconfigure(max_level);
